@@ -310,13 +310,13 @@ Section Filters.
     unfold qs_out_states. intros H s Hs.
     destruct (filterM_spec _ _ _ H s Hs) as [Hin Hps].
     assert (Hb : In s (map (map Z.of_nat) (fock_sums n_modes n_ph)) /\
-                 (pc = false -> (fold_right Z.max 0 s =? 1)%Z = true)).
+                 (pc = false -> (fold_right Z.max 0 s <=? 1)%Z = true)).
     { destruct pc; [split; [assumption|discriminate]|]. apply filter_In in Hin as [Ha Hb]. split; auto. }
     destruct Hb as [Hb Hm]. apply in_map_iff in Hb as (t & <- & Ht).
     apply fock_sums_sound in Ht as [Hl Hn].
     rewrite map_length, n_photons_of_nat, Hl, Hn. repeat split; auto.
     - apply Forall_forall. intros x Hx. apply in_map_iff in Hx as (y & <- & _). lia.
-    - intros Hpc. specialize (Hm Hpc). apply Z.eqb_eq in Hm. apply Forall_forall. intros x Hx.
+    - intros Hpc. specialize (Hm Hpc). apply Z.leb_le in Hm. apply Forall_forall. intros x Hx.
       apply max_le_all in Hx. lia.
   Qed.
 
